@@ -30,10 +30,11 @@ Definition extensions (ss : string) : outcome string :=
   let newsid := (removelast parts ++ [handle_extension (last parts "")])%list in
   do query' <- (if sempty query then Ok "" else
                 do qd <- to_dict query;
-                let qd' := match dget qd "ext" with
-                           | Some e => if sempty e then qd else dset qd "ext" (handle_extension e)
-                           | None => qd
-                           end in
+                let leafs := nodup_s (map snd (c_leaf_keys c) ++ match c_leaf_default c with Some k => [k] | None => [] end)%list in
+                let qd' := fold_left (fun q lk => match dget q lk with
+                                                  | Some e => if sempty e then q else dset q lk (handle_extension e)
+                                                  | None => q
+                                                  end) leafs qd in
                 Ok (to_string qd'));
   Ok (join "/" newsid ++ (if sempty query' then "" else "?" ++ query')).
 
